@@ -46,3 +46,31 @@ contract('Class.namespaces', returns='list[str]', fresh=True, result_is="[''] + 
 contract('ForwardDeclaration.namespaces', returns='list[str]', fresh=True, result_is="[''] + ns_chain(self.parent)")
 contract('Enum.namespaces', returns='list[str]', fresh=True, result_is="[''] + ns_chain(self.parent)")
 contract('InstantiatedDeclaration.to_cpp', returns='str', requires=[PLAIN], modifies=['alloc'], result_is='old(idecl_cpp(self))')
+
+# ---- C02: what instantiation leaves untouched (names, default text, order); the substituted type itself is
+#      decided by the bounded oracle (instantiate_type is out of the engine's reach: deep copy, str.replace)
+TYPE_ANY_ = 'ref:Type|ref:TemplatedType'
+contract('instantiate_type',
+         params={'ctype': TYPE_ANY_, 'template_typenames': 'list[str]', 'instantiations': 'list[ref:Typename]',
+                 'cpp_typename': 'ref:Typename', 'instantiated_class': 'ref:InstantiatedClass|none'},
+         returns=TYPE_ANY_, modifies=['alloc'], assumed=True,
+         note='type-level contract: returns a Type, changes no existing object (deep copy first); the substitution itself is '
+              'checked by the bounded reference oracle of C02')
+contract('instantiate_args_list',
+         params={'args_list': 'list[ref:Argument]', 'template_typenames': 'list[str]', 'instantiations': 'list[ref:Typename]',
+                 'cpp_typename': 'ref:Typename'},
+         returns='list[ref:Argument]', fresh=True, modifies=['alloc'],
+         ensures=['len(result) == len(args_list)',
+                  'forall(0, len(args_list), lambda j: is_fresh(result[j]) and result[j].name == args_list[j].name '
+                  'and result[j].default == args_list[j].default)'],
+         loops={0: {'inv': ['len(instantiated_args) == _i',
+                            'forall(0, _i, lambda j: is_fresh(instantiated_args[j]) and instantiated_args[j].name == args_list[j].name '
+                            'and instantiated_args[j].default == args_list[j].default)'],
+                    'modifies': ['fresh:name', 'fresh:ctype', 'fresh:default', 'fresh:parent'],
+                    'types': {'instantiated_args': 'list[ref:Argument]'}}})
+contract('instantiate_return_type',
+         params={'return_type': 'ref:ReturnType', 'template_typenames': 'list[str]', 'instantiations': 'list[ref:Typename]',
+                 'cpp_typename': 'ref:Typename', 'instantiated_class': 'ref:InstantiatedClass|none'},
+         returns='ref:ReturnType', modifies=['alloc'],
+         ensures=['is_fresh(result)', "isinstance(result.type2, str) == isinstance(return_type.type2, str)",
+                  "implies(isinstance(result.type2, str), result.type2 == '')", 'result.parent is None'])
